@@ -37,7 +37,7 @@ META = {
     'level_note': 'Reference semantics vlib/models/graphsem.py and the '
                   'truth-table evaluator vlib/models/boolexpr.py are trusted.',
     'design_ref': 'DESIGN.md §5 C14',
-    'budget': {'quick': 90, 'thorough': 900},
+    'budget': {'quick': 120, 'thorough': 900},
 }
 RULE = ('case = one generated graph AST (2-5 chains over 3-7 tasks); '
         'distinct by its canonical text; non-trivial when it has at least '
@@ -72,7 +72,7 @@ MIN = {
     'input:duplicate-node-with-offset-and-alias-qualifier': 3,
 }
 
-NCASES = {'quick': 1600, 'thorough': 40000}
+NCASES = {'quick': 1280, 'thorough': 20000}
 N_RANDOM_STYLES = 4
 ICP = 1
 
